@@ -170,7 +170,25 @@ def run(tier):
             for src in (d[2] + " a" + body + " " + d[3], d[2] + body + d[3], d[0] + " if 1" + body + " " + d[1] + "x" + d[0] + " endif " + d[1]):
                 ajobs.append({"cfg": {"delims": d}, "steps": [{"op": "add", "tpls": [["t", src]]}]})
                 ameta.append((seq, ds, src))
-    ares = vp.run_jobs(ajobs, tag="c06-atoms", timeout=3000, may_abort=False)
+    # registration builds its reports eagerly (unknown filter / test / function / component / include target, missing parent,
+    # orphan block): references that wrap onto a shorter / longer / empty next line, after multi-byte text; and template
+    # sets whose extends / include cycle only closes through a fallback prefix, odd names
+    pad = "xxxxxxxxxxxxxxxxxxxxxxxx é世 "
+    for ref in ("{{ a | nofilter(x=1,\n y=2) }}", "{{ a is notest(x=1,\n y=2) }}", "{{ nofn(x=1,\n y=2) }}", "{{<nocomp a=1\n b=2 />}}", "{% include\n 'nope' %}",
+                "{% <nocomp\n> %}x{% </nocomp> %}", "{{ a | nofilter(x=1,\n\n\n y=2) }}", "{{ a\n| nofilter }}", "{{ a | nofilter(x='\n') }}",
+                "{{ a | nofilter(x=1,\n" + " " * 60 + "y=2) }}"):
+        for src in (pad + ref, pad + ref + "\ntail", "\n\n" + pad + ref, "{% block b %}" + pad + ref + "{% endblock %}",
+                    "{% component K() %}" + pad + ref + "{% endcomponent K %}"):
+            ajobs.append({"cfg": {}, "steps": [{"op": "add", "tpls": [["t", src]]}, {"op": "render_str", "src": src, "auto": True}]})
+            ameta.append((["multi-line reference"], "default", src))
+    for tpls in ([["p/base", "{% extends 'base' %}"]], [["p/base", "{% extends 'mid' %}"], ["mid", "{% extends 'base' %}"]],
+                 [["p/a", "{% include 'a' %}"]], [["p/a", "{% include 'b' %}"], ["q/b", "{% include 'a' %}"]],
+                 [["p/base", pad + "\n{% extends\n 'nope' %}"]], [["c", "{% extends 'p' %}{% block\n zz %}{% endblock %}"], ["p", "P"]],
+                 [["", "x"], ["é", "{% include '' %}"]], [["a'b", "x"], ["t", "{% include \"a'b\" %}"]], [["x" * 5000, "{% extends '" + "x" * 5000 + "' %}"]]):
+        for order in (tpls, list(reversed(tpls))):
+            ajobs.append({"cfg": {"prefixes": ["p/", "q/"]}, "steps": [{"op": "add", "tpls": order}] + [{"op": "render", "name": n} for n, _ in order]})
+            ameta.append((["names and prefixes"], "default", json.dumps(order)[:300]))
+    ares = vp.run_jobs(ajobs, tag="c06-atoms", timeout=3000, may_abort=True)
     for (seq, ds, src), rr in zip(ameta, ares):
         C.count()
         C.nontrivial([seq, ds])
